@@ -11,18 +11,20 @@ from pyparsing import Word, ZeroOrMore, Literal, Forward, Combine, Optional, Reg
 
 from .datatypes import *
 from .filter_ast import *
-from .zincparser import DelimitedList, to_dict
+from .zincparser import DelimitedList, to_dict, _unescape
 from .zoneinfo import timezone
 
 # TODO: check escape char. Voir hs_str du parser
 
 hs_filter = Forward()
 hs_strChar = Regex(r"([^\x00-\x1f\\\"]|\\[bfnrt\\\"$]|\\[uU][0-9a-fA-F]{4})")
-hs_str = Combine(Suppress(Literal('"')) + ZeroOrMore(hs_strChar) + Suppress(Literal('"')))
+hs_str = Combine(Suppress(Literal('"')) + ZeroOrMore(hs_strChar) + Suppress(Literal('"'))).setParseAction(
+    lambda toks: _unescape(toks[0], uri=False)
+)
 hs_uriChar = Regex(r"([^\x00-\x1f\\`]|\\[bfnrt\\:/?" \
                    + r"#\[\]@&=;`]|\\[uU][0-9a-fA-F]{4})")
 hs_uri = Combine(Suppress(Literal('`')) + ZeroOrMore(hs_uriChar) + Suppress(Literal('`'))).setParseAction(
-    lambda toks: Uri(toks[0])
+    lambda toks: Uri(_unescape(toks[0], uri=True))
 )
 hs_digits = Regex(r'[0-9_]+')
 hs_alpha = Regex(r'[a-zA-Z]')
@@ -44,7 +46,10 @@ hs_digits = Regex(r'[0-9_]+')
 hs_quantity = (hs_decimal + hs_unit.copy().leaveWhitespace()).setParseAction(
     lambda toks: Quantity(toks[0], toks[1])
 )
-hs_number = hs_quantity | hs_decimal | Literal('INF') | Literal("-INF") | Literal("Nan")
+hs_number = hs_quantity | hs_decimal | \
+            (Literal('INF') | Literal("-INF") | Literal("NaN") | Literal("Nan")).setParseAction(
+                lambda toks: float(toks[0])
+            )
 hs_bool = (Literal("true") | Literal("false")).setParseAction(
     lambda toks: toks[0] == "true"
 )  # Extension to accept T or F
